@@ -12,6 +12,7 @@
 package main
 
 import (
+	"unsafe"
 	"bufio"
 	"encoding/json"
 	"flag"
@@ -372,4 +373,11 @@ func (r *rng) intn(n int) int {
 		return 0
 	}
 	return int(r.next() % uint64(n))
+}
+
+func uintptrOf(b []byte) uintptr {
+	if len(b) == 0 {
+		return 0
+	}
+	return uintptr(unsafe.Pointer(&b[0]))
 }
